@@ -77,23 +77,27 @@ class SimLoop(asyncio.BaseEventLoop):
         w = self.world
         w.sched_decisions += 1
         if self.policy == 'lifo':
-            w.sched_trace.append([n, n - 1])
+            if w.recording:
+                w.sched_trace.append([n, n - 1])
             return n - 1
         if self.policy == 'random':
             i = w.ch.draw(n, 'sched.pick')
-            w.sched_trace.append([n, i])
+            if w.recording:
+                w.sched_trace.append([n, i])
             return i
         # pct: handles that are not task steps run first, in FIFO order
         best_i, best_p = -1, -1
         for i, h in enumerate(ready):
             t = self._task_of(h)
             if t is None:
-                w.sched_trace.append([n, i])
+                if w.recording:
+                    w.sched_trace.append([n, i])
                 return i
             p = self._priority(t)
             if p > best_p:
                 best_i, best_p = i, p
-        w.sched_trace.append([n, best_i])
+        if w.recording:
+            w.sched_trace.append([n, best_i])
         return best_i
 
     def _run_once(self) -> None:
